@@ -4,6 +4,7 @@
    queue while offline passes the offline-queue policy.  Proved preserved by every entry point on top of `Inv`
    (Proofs/EngineWF.lean). -/
 import GV.Proofs.EngineWF
+import GV.Proofs.Counting
 namespace GV
 
 structure Extra (filed : Bool) (W : List Nat) (v : View) : Prop where
@@ -17,6 +18,7 @@ structure Extra (filed : Bool) (W : List Nat) (v : View) : Prop where
   x6 : ∀ id, v.current = some id → id ∈ v.highQ → ∀ o, v.ops.lookup id = some o → o.pubrel.isSome = true
   x7 : ∀ id ∈ v.highQ, v.highQ.count id = 1 ∨ ∀ o, v.ops.lookup id = some o → o.pubrel.isSome = true
   x8 : ∀ id o, v.ops.lookup id = some o → o.pubrel.isSome = true → publishQos o.packet = some 2
+  x9 : v.pendingWC.Nodup
   cur : (v.state = .connected ∨ v.state = .pendingConnack) → ∀ id, v.current = some id → ∃ o, v.ops.lookup id = some o
   h1e : v.state = .pendingConnack → (∀ id ∈ v.highQ ++ v.pendingWC, id ∈ W ∨ ∃ o, v.ops.lookup id = some o) ∧ v.connackSet = true
   op : (v.state = .disconnected ∨ v.state = .pendingConnack) → ∀ id ∈ v.userQ, ∀ o, v.ops.lookup id = some o →
@@ -773,6 +775,7 @@ theorem handleWriteCompletion_extra (e : Engine) (h : Extra false [] e.view) : E
           x1a := fun _ id _ hm => by cases hm
           x2 := fun id hi => ⟨List.not_mem_nil, (h.x2 id hi).2⟩
           x3 := fun id hi => ⟨List.not_mem_nil, (h.x3 id hi).2⟩
+          x9 := List.nodup_nil
           h1e := fun hs => by
             obtain ⟨a, b⟩ := h.h1e hs
             refine ⟨fun id hi => ?_, b⟩
@@ -1222,6 +1225,10 @@ theorem Extra.filePendingWC {v : View} (h : Extra false [] v) (id : Nat) (s' : P
       rcases hmem i hm with a | a
       · exact (h.x3 i hi).1 a
       · subst a; exact hnh hi
+    x9 := by
+      have : (v.pendingWC ++ [id]).Perm (id :: v.pendingWC) := List.perm_append_singleton _ _
+      rw [this.nodup_iff]
+      exact List.nodup_cons.mpr ⟨h.x1a rfl id hc, h.x9⟩
     cur := fun hh i hi => h.cur (by rw [← hstate hh]; exact hh) i hi
     h1e := fun hh => by
       have hv : v.state = .pendingConnack := by rw [← hstate (.inr hh)]; exact hh
@@ -1496,6 +1503,7 @@ theorem reset_extra (e : Engine) : Extra false [] e.reset.view := by
     x6 := fun id hc => by cases hc
     x7 := fun id hi => by cases hi
     x8 := fun id o ho => by cases ho
+    x9 := List.nodup_nil
     cur := fun _ id hc => by cases hc
     h1e := fun hh => by
       have : e1.state = .pendingConnack := hh
@@ -1779,5 +1787,85 @@ theorem handleConnack_extra (e : Engine) (c : Connack) (hinv : Inv e) (h : Extra
         split
         · exact fin
         · exact fin
+
+/-! ### incoming data -/
+
+theorem handlePacket_extra (e : Engine) (p : Packet) (hinv : Inv e) (h : Extra false [] e.view) : Extra false [] (e.handlePacket p).1.view := by
+  cases p with
+  | connack c => exact handleConnack_extra e c hinv h
+  | publish pb => exact handlePublish_extra e pb hinv h
+  | pingresp => exact handlePingresp_extra e h
+  | disconnect d => exact handleDisconnect_extra e d h
+  | suback s => exact handleSuback_extra e s h
+  | unsuback s => exact handleUnsuback_extra e s h
+  | puback a => exact handlePuback_extra e a h
+  | pubcomp a => exact handlePubcomp_extra e a h
+  | pubrel a => exact handlePubrel_extra e a hinv h
+  | pubrec a => exact handlePubrec_extra e a hinv h
+  | connect _ => exact h
+  | subscribe _ => exact h
+  | unsubscribe _ => exact h
+  | pingreq => exact h
+  | auth _ => exact h
+
+theorem dispatchPacket_extra (e1 : Engine) (p1 : Packet) (hinv : Inv e1) (h : Extra false [] e1.view) :
+    Extra false [] (e1.dispatchPacket p1).1.view := by
+  unfold Engine.dispatchPacket
+  split
+  · exact h.halt
+  · have h2 := handlePacket_extra e1 p1 hinv h
+    generalize e1.handlePacket p1 = x at h2 ⊢
+    obtain ⟨e2, r⟩ := x
+    simp only [] at h2 ⊢
+    split
+    · exact h2.halt
+    · exact h2
+
+theorem handleOnePacket_extra (e : Engine) (p : Packet) (hinv : Inv e) (h : Extra false [] e.view) :
+    Extra false [] (e.handleOnePacket p).1.view := by
+  unfold Engine.handleOnePacket
+  cases p with
+  | publish pb =>
+    simp only []
+    cases hr : e.inRes.resolve pb.topicAlias pb.topic with
+    | none => exact h
+    | some x =>
+      obtain ⟨r', t⟩ := x
+      exact dispatchPacket_extra { e with inRes := r' } _ (hinv.of_eq rfl rfl) h
+  | _ => exact dispatchPacket_extra e _ hinv h
+
+theorem handlePackets_extra : ∀ (ps : List Packet) (e : Engine), Inv e → e.state ≠ .disconnected → Extra false [] e.view →
+    Extra false [] (e.handlePackets ps).1.view := by
+  intro ps
+  induction ps with
+  | nil => intro e _ _ h; exact h
+  | cons p rest ih =>
+    intro e hinv hnd h
+    unfold Engine.handlePackets
+    have h1 := handleOnePacket_inv e p hinv hnd
+    have x1 := handleOnePacket_extra e p hinv h
+    generalize e.handleOnePacket p = x at h1 x1 ⊢
+    obtain ⟨e1, r⟩ := x
+    simp only [] at h1 x1 ⊢
+    split
+    · exact x1
+    · exact ih e1 h1.1 h1.2 x1
+
+/-- **incoming data keeps the second layer**, whatever the bytes -/
+theorem handleData_extra (e : Engine) (bs : Bytes) (hinv : Inv e) (h : Extra false [] e.view) : Extra false [] (e.handleData bs).1.view := by
+  unfold Engine.handleData
+  split
+  · exact h
+  · rename_i hst
+    have hnd : e.state ≠ .disconnected := by
+      intro hh; rw [hh] at hst; simp at hst
+    split
+    · exact h.halt
+    · simp only []
+      have h1 : Inv { e with dec := (decodeBytes { version := e.cfg.version, maxSize := e.cfg.connect.maximumPacketSize.getD maxPacket } e.dec bs).dec } :=
+        hinv.of_eq rfl rfl
+      split
+      · exact h.halt
+      · exact handlePackets_extra _ _ h1 hnd h
 
 end GV
